@@ -194,9 +194,39 @@ def plan_C14(ctx):
     return codec_family(ctx, 6000, 200000)
 
 
+def plan_C18(ctx):
+    ctx.build()
+    cases, st = fam_codec.mc_generic(ctx.work, "MCPrim", "  MaxLimbs = %d\n  Emit = TRUE\n" % (3 if ctx.quick else 5),
+                                     "SkipExact SkipInRange VarUintAgree VarIntAgree ZagZigAgree TagAgree")
+    ctx.add_mc(st)
+    log("design check MCPrim: %d states, %d cases" % (st["distinct"], len(cases)))
+    for c in cases:
+        c["cfg"] = fam_codec.CFGS["default"]
+    p1 = os.path.join(ctx.work, "mc_cases.ndjson")
+    fam_codec.write_cases(cases, p1, 0)
+    n = 30000 if ctx.quick else 2000000
+    p2 = fam_codec.gen_random(ctx.pvh, ctx.work, n, ctx.seed, cfg="default", kind="prim")
+    ctx.case_files = [p1, p2]
+    t1 = fam_codec.run_cases(ctx.pvh, p1, ctx.work, "mc")
+    t2 = fam_codec.run_cases(ctx.pvh, p2, ctx.work, "rnd")
+    trace = os.path.join(ctx.work, "all_trace.ndjson")
+    with open(trace, "w") as f:
+        f.write(open(t1).read())
+        f.write(open(t2).read())
+    verdicts, jst = vlib.judge(ctx.work, "TracePrim", trace, ctx.env, ctx.open, tag="main")
+    rule = ("S->C: MCPrim's universe (all 2^j, 2^j+-1, 7k-bit boundaries, every canonical limb sequence of length <= %d over "
+            "{0,1,2,63,64,65,126,127}; tags for wire types 0..5; Skip over well-formed fields of every wire type and all their truncations, "
+            "over-long / overflowing / huge lengths and counts, unknown wire types); C->S: %d random 64-bit values, tags and byte strings. "
+            "non-trivial = not the empty input" % (3 if ctx.quick else 5, n))
+    return finish(ctx, "TracePrim", verdicts, [trace], jst, rule,
+                  ["TLC integers are 32-bit: 64-bit values are compared as base-128 limb sequences",
+                   "an over-long but terminated varint may be skipped or rejected (the documentation leaves it open)"])
+
+
 def plan_C12(ctx):
     return codec_family(ctx, 6000, 200000, mc_cfgs_quick=("both", "pa"), rnd_cfg="mix")
 
 
-PLANS = {"C12": plan_C12, "C01": plan_C01, "C02": plan_C02, "C05": plan_C05, "C09": plan_C09, "C14": plan_C14}
+PLANS = {"C18": plan_C18, "C12": plan_C12, "C01": plan_C01, "C02": plan_C02, "C05": plan_C05, "C09": plan_C09, "C14": plan_C14}
 MODULES = {k: "TraceCodec" for k in PLANS}
+MODULES["C18"] = "TracePrim"
